@@ -342,8 +342,86 @@ def run_slow_uploads(args, res):
     return res
 
 
+def run_scheduled(args, res):
+    """a conditional PUT (If-Match: current etag) pre-empted at each of its file-system steps in turn, while an
+    unconditional PUT of the same resource runs to completion (WSGI application, two threads, deterministic scheduler of
+    vf/sched.py; asyncio.to_thread of the web layer runs inline so that the store code stays on the scheduled thread).
+    Whatever the point: if both are answered 2xx the resource must end with the unconditional PUT's content - the
+    condition was no longer true when the conditional one wrote."""
+    from vf import sched
+    import xandikos.web as XW
+
+    async def inline(func, *a, **k):
+        return func(*a, **k)
+    XW.to_thread = inline
+    rng = random.Random(args["seed"])
+    base = common.mkscratch("c03p")
+    w = W.World(base, fe_kind="wsgi", prefix=args.get("prefix", "/"), seed=args["seed"])
+    w.res = res
+    try:
+        w.start()
+        colpath = "/user/calendars/cal0/"
+        w.mkcol(colpath, "calendar")
+        fsp = w.fs_path(colpath)
+        for rnd in range(args["rounds"]):
+            name = "s%d.ics" % rnd
+            uid = "c03-sched-%d" % rnd
+            target = w.url(colpath, name)
+
+            def put(tok, hdrs=()):
+                return w.fe.request("PUT", target, [("Content-Type", "text/calendar")] + list(hdrs), gen.ical(rng, uid, tok, rich=False))
+            # recording pass: how many yield points does the conditional PUT have?
+            r0 = put(w.new_token())
+            et = r0.header("ETag")
+            sc = sched.Scheduler(fsp, preempt={}, first=0)
+            rr = sc.run([lambda: put(w.new_token(), [("If-Match", et)])])
+            n_yields = len(sc.trace)
+            if rr[0][0] != "value" or rr[0][1].status not in (200, 201, 204) or n_yields == 0:
+                res.inconclusive.append("recording pass of the conditional PUT failed: %r, %d yields" % (rr[0], n_yields))
+                continue
+            res.count("scheduled_conditional_put_yield_points", n_yields)
+            for k in range(n_yields):
+                r0 = put(w.new_token())
+                et = r0.header("ETag")
+                ta, tb = w.new_token(), w.new_token()
+                sc = sched.Scheduler(fsp, preempt={k: 1}, first=0)
+                rr = sc.run([lambda: put(ta, [("If-Match", et)]), lambda: put(tb)])
+                if sc.stuck or any(x is None or x[0] != "value" for x in rr):
+                    res.count("scheduled_runs_without_two_answers")
+                    continue
+                label = sc.trace[k][1] if k < len(sc.trace) and sc.trace[k][0] == 0 else "?"
+                sa, sb = X.effective_status("PUT", rr[0][1])[0], X.effective_status("PUT", rr[1][1])[0]
+                rg = w.fe.request("GET", target, [], None)
+                final = "A" if ta.encode() in (rg.body or b"") else ("B" if tb.encode() in (rg.body or b"") else "other")
+                res.evaluations += 1
+                res.count("scheduled_interleavings")
+                res.seen("scheduled", label, sa, sb, final)
+                okA, okB = sa in (200, 201, 204), sb in (200, 201, 204)
+                if okA and okB and final != "B":
+                    where = "lock-acquisition" if label.endswith(".git/index.lock") else label
+                    res.violation(f"scheduled/tree/conditional-put-overwrote-an-acknowledged-put/preempted-at-{where}",
+                                  f"PUT {target} If-Match {et} pre-empted at its step {k} ({label}) while an unconditional PUT of the same resource ran: both answered {sa}/{sb} and the "
+                                  f"resource holds the content of {final}: the condition was evaluated before the other write and not again", {"config": dict(args), "step": k, "label": label})
+                elif okA and okB:
+                    res.count("scheduled_both_ok_final_B")
+                elif okB and not okA:
+                    res.count("scheduled_conditional_refused:%s" % sa)
+                elif okA and not okB:
+                    res.count("scheduled_other_refused:%s" % sb)
+                    if final != "A":
+                        res.violation("scheduled/tree/acknowledged-conditional-put-not-stored", f"conditional PUT answered {sa}, the other {sb} (refused), yet the resource holds {final}", {"config": dict(args), "step": k, "label": label})
+    except Exception:
+        res.inconclusive.append("harness exception: " + traceback.format_exc()[-1500:])
+    finally:
+        w.stop()
+        common.rmtree(base)
+    return res
+
+
 def run_shard(args):
     res = common.Result()
+    if args.get("mode") == "scheduled":
+        return run_scheduled(args, res)
     if args.get("mode") == "store":
         from vf import storedrv
         return storedrv.run(args, res, PROP)
@@ -406,12 +484,15 @@ def check(tier, seed, t0):
         shards.append({"mode": "store", "backend": b, "seed": seed * 100 + 70 + i, "steps": 200 if tier == "quick" else 1500, "histories": 2 if tier == "quick" else 6})
     for i in range(2 if tier == "quick" else 6):
         shards.append({"mode": "slow", "prefix": ["/", "/dav/"][i % 2], "seed": seed * 100 + 90 + i, "rounds": 6 if tier == "quick" else 25})
+    for i in range(2 if tier == "quick" else 6):
+        shards.append({"mode": "scheduled", "prefix": ["/", "/dav/"][i % 2], "seed": seed * 100 + 95 + i, "rounds": 2 if tier == "quick" else 6})
     results, failures = common.run_shards("vf.props.c03", shards, timeout_s=300 if tier == "quick" else 2400)
     merged = common.merge(results)
     c = merged["counters"]
     guards = [("cases", c.get("cases", 0), int(n * 2.5)), ("cases expected executed", c.get("expected_executed", 0), 100), ("cases expected refused", c.get("expected_refused", 0), 100),
               ("cases expected 304", c.get("expected_304", 0), 20), ("cases expected 200", c.get("expected_200", 0), 20), ("store-API steps", c.get("store_steps", 0), 1000),
               ("conditional PUTs whose body arrived while another PUT completed", c.get("slow_upload_cases", 0), 40),
+              ("conditional PUTs pre-empted at one of their steps while another PUT of the resource ran", c.get("scheduled_interleavings", 0), 60),
               ("conditional PUTs carrying exactly the stored bytes", c.get("conditional_puts_of_the_stored_bytes", 0), 40)]
     return common.finish(PROP, tier, seed, "exploration", merged, failures, RULE + f"; the cross product has {n} cases per (front end, backend)", t0, guards=guards,
                          assumptions=["RFC 7232: If-Match strong comparison, '*' = exists; unquoted values are not entity-tags (outcome not judged, effect judged)",
